@@ -551,6 +551,8 @@ class Sharded:
                     c = w['a']
                 if killed or rc == 77:
                     self.hangs.append(c)
+                elif rc == 42:
+                    pass    # the schedule controller reported a violation (@viol line already collected) and ended the process
                 elif rc == 2:
                     self.problems.append('worker exit 2 at case %s: %s' % (last, (err or out)[-600:]))
                     continue
